@@ -112,7 +112,6 @@ define_token_enum! {
         #[regex(r##"[0-9]+(\.([0-9]*f|[0-9]+)|f)"##)] LitFloat(&'a str),
         #[regex(r##"rad\([-+]?[0-9]+(\.([0-9]*f|[0-9]+)|f)?\)"##)] LitRad(&'a str),
         #[regex(r##"[0-9]+|0[xX][0-9a-fA-F]+|0[bB][0-1]+"##)] LitInt(&'a str),
-        #[regex(r##"![-*ENHLWXYZO4567]+"##)] DifficultyStr(&'a str),
         #[regex(r##"ins_[a-zA-Z0-9_]*"##)] Instr(&'a str),
         #[regex(r##"[a-zA-Z_][a-zA-Z0-9_]*"##)] Ident(&'a str),
 
